@@ -16,6 +16,22 @@ _TAPE_ASSUME = [
 ]
 # objects are raw storage without a vptr: the sanitizer replay must not stop on its vptr check before reaching the real code
 _RAWFLAGS = ['-fno-sanitize=vptr']
+
+
+def _cos_native(x):
+    # concrete arguments (translator validation runs): the value the native libm returns
+    import math
+    from fractions import Fraction
+    return Fraction(math.cos(float(x)))
+
+
+def _sin_native(x):
+    import math
+    from fractions import Fraction
+    return Fraction(math.sin(float(x)))
+
+
+_TRIG = {'libm_exact': {'cos': _cos_native, 'sin': _sin_native}}
 _SPACE_STUB = 'ASpaceObject::getNDim / setNDim: the space context is one integer cell (SpaceRN construction, ESpaceType check not executed)'
 
 _NEIGH_TUS = ['src/Neigh/NeighMoving.cpp', 'src/Neigh/ANeigh.cpp', 'src/Geometry/BiTargetCheckDistance.cpp',
@@ -37,7 +53,7 @@ for _name, _mode, _nd, _tiers in (('iso', 0, 2, ('quick', 'thorough')), ('aniso'
                                   'BiTargetCheckDistance::create(radius, coeffs, angles); number of coefficients == space dimension; '
                                   'radius > 0, coefficients > 0; mode rot: first angle non-zero (rotation present)',
                                   'cos/sin of the rotation angles are uninterpreted (values only moved)'],
-      cxxflags=_RAWFLAGS, stubs=_TAPE_STUBS + [_SPACE_STUB])
+      symex=_TRIG, cxxflags=_RAWFLAGS, stubs=_TAPE_STUBS + [_SPACE_STUB])
 
 _NEIGHB_TUS = ['src/Neigh/NeighUnique.cpp', 'src/Neigh/NeighBench.cpp', 'src/Neigh/NeighCell.cpp', 'src/Neigh/NeighImage.cpp',
                'src/Neigh/ANeigh.cpp', 'src/Geometry/BiTargetCheckBench.cpp', 'src/Geometry/ABiTargetCheck.cpp', 'src/Basic/AStringable.cpp']
@@ -96,6 +112,7 @@ for _nd, _tiers in ((2, ('quick', 'thorough')), (3, ('thorough',))):
       what='DbGrid::_serialize -> DbGrid::_deserialize, grid header only (with DbGrid::gridDefine, Grid::resetFromVector, Rotation::setAngles): '
            'records consumed in order and type, both return true, NX/X0/DX/angles of the reloaded grid agree, re-serialising gives the same records',
       out='the Db part of the file (columns, names, locators, values): Db::_serialize/_deserialize are cut; the text layer; file open / class tag check',
+      symex=_TRIG,
       assumptions=_TAPE_ASSUME + ['DbGrid objects built by the real default constructor + gridDefine; cos/sin uninterpreted'],
       stubs=_TAPE_STUBS + ['Db::_serialize, Db::_deserialize: return true without reading or writing (Db part outside the kernel)',
                          'Db::_clear: empty (locator tables not built: the ELoc enumeration needs static constructors)'])
